@@ -493,6 +493,8 @@ def _draw(rng, cls, size):
         return V, pair_to_quads(V, F, rng), "paired_" + n
     if cls == "dual":
         V, F, n = _draw(rng, rng.choice(["sphere", "torus_tri", "octa"]), min(size, 5))
+        if not topo.analyse(len(V), F)["closed"]:
+            V, F, n = octahedron()
         C, P, _ = dual_polygons(V, F)
         return C, P, "dual_" + n
     if cls == "double_torus":
@@ -546,7 +548,10 @@ def make(seed, tri_only=False, poly_only=False, closed=None, connected=None, dis
         V = np.asarray(V, float)
         if combinators:
             if allow_union and not disk and connected is not True and rng.random() < 0.15:
-                V2, F2, n2 = _draw(rng, rng.choice(TRI_CLASSES if tri_only else TRI_CLASSES + POLY_CLASSES), min(size, 3))
+                try:
+                    V2, F2, n2 = _draw(rng, rng.choice(TRI_CLASSES if tri_only else TRI_CLASSES + POLY_CLASSES), min(size, 3))
+                except Exception:
+                    continue
                 if tri_only and any(len(f) != 3 for f in F2):
                     continue
                 V, F = disjoint_union([(V, F), (np.asarray(V2, float), F2)])
